@@ -404,6 +404,7 @@ func (u *Unit) checkPost(o Outcome) {
 		}
 		u.assert(o.env, "post/"+label, "post", pos, cl.Text, t)
 	}
+	u.checkReturnsLit(o)
 	if u.Block != nil && u.Block.Opts["guarded"] != "" {
 		u.assert(o.env, "perm/one-delegated-call", "perm", o.pos, fmt.Sprintf("exactly one call on the guarded object on every path (this path: %d)", o.env.delegated), boolTerm(o.env.delegated == 1))
 		if u.recvObj != nil {
